@@ -8,7 +8,7 @@ def _nontrivial(op, out):
 
 PROP = dict(
     lean_modules=["Octo.Props.C01"],
-    required_theorems=[],
+    required_theorems=["Octo.C01.C01_denote_sound", "Octo.C01.denoteNested_sound", "Octo.C01.blockCore_spec", "Octo.C01.orderLimitEager_spec", "Octo.C01.block_table_sound"],
     needs_binary=True,
     nontrivial=_nontrivial,
     rule="type-directed generator (harness/sqlgen.go): tables of 1-4 columns (Int/Float/String/Boolean, NULL-heavy, duplicates, "
